@@ -203,21 +203,61 @@ def r05_4(ctx):
             and src(s.targets[0].value) == 'Pj' and isinstance(s.value, ast.Constant) and s.value.value == 0]
     sel = [c for c in ast.walk(rf.node) if isinstance(c, ast.Call) and src(c.func) == 'blocks.append' and c.args and isinstance(c.args[0], ast.Subscript)]
     if zero and sel:
-        def index_list_name(sub):
+        assigns = [s for s in own_nodes(rf.node) if isinstance(s, ast.Assign) and len(s.targets) == 1]
+
+        def strip(v):
+            # list(E), E[:n], tuple(E): the same per-level lists (possibly a fresh outer container)
+            while True:
+                if isinstance(v, ast.Call) and isinstance(v.func, ast.Name) and v.func.id in ('list', 'tuple') and len(v.args) == 1:
+                    v = v.args[0]
+                elif isinstance(v, ast.Subscript) and isinstance(v.slice, ast.Slice):
+                    v = v.value
+                else:
+                    return v
+
+        def descriptor(e, depth=0):
+            """(origin expression, frozenset of element stores applied to this container) of a per-level index list"""
+            e = strip(e)
+            if isinstance(e, ast.Name) and depth < 5:
+                defs = [s for s in assigns if isinstance(s.targets[0], ast.Name) and s.targets[0].id == e.id]
+                stores = frozenset(src(s).replace(' ', '') for s in assigns if isinstance(s.targets[0], ast.Subscript)
+                                   and isinstance(s.targets[0].value, ast.Name) and s.targets[0].value.id == e.id)
+                if len(defs) != 1:
+                    return None
+                d = descriptor(defs[0].value, depth + 1)
+                if d is None:
+                    return None
+                fresh = strip(defs[0].value) is not defs[0].value     # list(...) / slice: stores do not reach the origin
+                if stores and not fresh:
+                    return None         # stores through an alias reach the origin as well: not modelled
+                return (d[0], d[1] | stores)
+            if isinstance(e, ast.Call):
+                return (src(e).replace(' ', ''), frozenset())
+            return None
+
+        def index_list(sub):
             sl = sub.slice
             el = sl.elts if isinstance(sl, ast.Tuple) else [sl]
             for e in el:
-                if isinstance(e, ast.Subscript) and isinstance(e.value, ast.Name):
-                    return e.value.id, src(e.slice).replace(' ', '')
+                if isinstance(e, ast.Subscript) and not isinstance(e.slice, ast.Slice):
+                    return e.value, e.slice
             return None, None
-        X, xi = index_list_name(zero[0].targets[0])
-        Y, yi = index_list_name(sel[0].args[0])
-        ok = None if X is None or Y is None else (X == Y)
-        ctx.decide('R05.4', rf.qual, 'rows zeroed by truncation: %s[%s]; column block of a level: %s[%s]' % (X, xi, Y, yi), ok, zero[0],
+        X, xi = index_list(zero[0].targets[0])
+        Y, yi = index_list(sel[0].args[0])
+        dX = descriptor(X) if X is not None else None
+        dY = descriptor(Y) if Y is not None else None
+        ok = None if dX is None or dY is None else (dX == dY)
+        ctx.decide('R05.4', rf.qual, 'rows zeroed by truncation and column block of a level come from the same per-level index lists', ok, zero[0],
                    'coarse functions are truncated against exactly the functions that make up the next level of the (virtual) basis; on an '
-                   'intermediate virtual level that includes the deactivated functions of the top level', definite=True)
-        ctx.decide('R05.4', rf.qual, 'truncation addresses level %s while processing level k' % xi, (xi == 'k+1') if xi else None, zero[0],
-                   'level k is truncated against level k+1', definite=True)
+                   'intermediate virtual level that includes the deactivated functions of the top level'
+                   + ('' if ok is not False else ' -- rows: %s with element stores %s; columns: %s with element stores %s'
+                      % (dX[0], sorted(dX[1]) or 'none', dY[0], sorted(dY[1]) or 'none')), definite=True)
+        if xi is not None:
+            ctx.formula('R05.4', rf.qual, xi, 'k+1', zero[0], 'level k is truncated against level k+1',
+                        label='level addressed by the truncation while processing level k')
+        if yi is not None:
+            ctx.formula('R05.4', rf.qual, yi, 'k', sel[0], 'the block of level k is selected by the index list of level k',
+                        label='level addressed by the column selection while processing level k')
     else:
         ctx.undecided('R05.4', rf.qual, 'truncation / block selection statements', rf.node, 'not recognised')
     kp = ctx.prog.func('pyiga.utils.kron_partial')
